@@ -102,6 +102,7 @@ func (r *validationResponseHandler) HandleValidationResponse(
 		}
 		CacheStatusRevalidated.ApplyTo(ctx.Stored.Data.Header)
 		r.l.LogCacheRevalidated(req, ctx.URLKey, ctx.ToMisc(nil))
+		discard(resp)
 		return ctx.Stored.Data, nil
 	}
 
@@ -134,6 +135,7 @@ func (r *validationResponseHandler) HandleValidationResponse(
 			SetAgeHeader(ctx.Stored.Data, r.clock, ctx.Freshness.Age)
 			CacheStatusStale.ApplyTo(ctx.Stored.Data.Header)
 			r.l.LogCacheStaleIfError(req, ctx.URLKey, ctx.ToMisc(ccResp))
+			discard(resp)
 			return ctx.Stored.Data, nil
 		}
 	}
@@ -161,4 +163,12 @@ func (r *validationResponseHandler) HandleValidationResponse(
 		r.l.LogCacheBypass("Bypass; serving upstream response", req, ctx.URLKey, ctx.ToMisc(ccResp))
 	}
 	return resp, nil
+}
+
+// discard releases an upstream response that is not passed on to the caller;
+// an unclosed body keeps its connection checked out.
+func discard(resp *http.Response) {
+	if resp != nil && resp.Body != nil {
+		_ = resp.Body.Close()
+	}
 }
